@@ -81,6 +81,9 @@ impl Allocator {
             let id = entity.id() as usize;
 
             if !self.is_alive(entity) {
+                // The entities before `index` were killed above; their indices
+                // must still reach the free list.
+                self.cache.extend(delete[..index].iter().map(|e| e.0));
                 return Err((self.del_err(entity), index));
             }
 
